@@ -39,6 +39,15 @@ DiffKeys(c, got, exp) ==
         sa == IF L.sa # NoSA /\ Get(got, SASeg) # Get(exp, SASeg) THEN {"service_action"} ELSE {}
     IN fk \cup op \cup sa
 
+DinLenC(c, a) == DinLen(c, a)
+DoutLenC(c, a) == DoutLen(c, a)
+
+\* the arguments as a conformant target reads them from the CDB that was actually built,
+\* completed by the arguments that are not carried in the CDB (block size, extra_tl, ...)
+FromCdb(c, cdb, a) ==
+    LET t == TargetDecode(c, cdb) IN
+    Ev([k \in Dom(a) \cup Dom(t) |-> IF k \in Dom(t) THEN t[k] ELSE a[k]])
+
 JConstructP(e, L, a, rf) ==
     IF ~InRange(e.cls, a) THEN {}
     ELSE IF rf # "" THEN (IF e.exc = rf THEN {} ELSE {<<"RefusedBeforeSend", rf>>})
@@ -46,6 +55,7 @@ JConstructP(e, L, a, rf) ==
     ELSE
       LET exp == EncodeCdb(e.cls, a)
           ph  == L.phase
+          ac  == IF Len(e.cdb) = L.len THEN FromCdb(e.cls, e.cdb, a) ELSE a   \* what the CDB announces
           wire == IF Len(e.cdb) # L.len THEN {<<"CdbLength", ToString(L.len)>>}
                   ELSE IF e.cdb = exp THEN {}
                   ELSE LET dk == DiffKeys(e.cls, e.cdb, exp) IN
@@ -53,14 +63,14 @@ JConstructP(e, L, a, rf) ==
                        ELSE {<<"WireFormat", ToJson(dk)>>}
           bufs == IF e.bufs_ok THEN {} ELSE {<<"ByteBuffers", "">>}
           din  == IF ph.k = "readcd"
-                  THEN LET tl == NatClamp(A(a, "tl", Z)) IN
-                       IF (tl = 0 /\ e.dinlen # 0) \/ e.dinlen < tl * SectorBytesMax(a)
+                  THEN LET tl == A(ac, "tl", Z) IN
+                       IF (Strip(tl) = <<>> /\ e.dinlen # 0) \/ e.dinlen < Mul(tl, N(SectorBytesMax(ac)))
                        THEN {<<"DataInLength", "tl*sector bytes">>} ELSE {}
-                  ELSE IF e.dinlen = DinLen(e.cls, a) THEN {}
-                       ELSE {<<"DataInLength", ToString(DinLen(e.cls, a))>>}
+                  ELSE IF e.dinlen = DinLenC(e.cls, ac) THEN {}
+                       ELSE {<<"DataInLength", ToString(DinLenC(e.cls, ac))>>}
           dout == IF ph.k = "out_list" THEN {}         \* announced length is the plen field above
-                  ELSE IF e.doutlen # DoutLen(e.cls, a) THEN {<<"DataOutLength", ToString(DoutLen(e.cls, a))>>}
-                  ELSE IF ph.k \in {"out_data", "out_block"} /\ DoutLen(e.cls, a) > 0 /\ ~e.dout_same
+                  ELSE IF e.doutlen # DoutLenC(e.cls, ac) THEN {<<"DataOutLength", ToString(DoutLenC(e.cls, ac))>>}
+                  ELSE IF ph.k \in {"out_data", "out_block"} /\ DoutLenC(e.cls, ac) > 0 /\ ~e.dout_same
                        THEN {<<"DataOutIsCallersData", "">>} ELSE {}
       IN wire \cup bufs \cup din \cup dout
 
